@@ -235,7 +235,7 @@ class CoreGen:
                 s = r.choice(strs)
                 return [("assign", r.choice(["+=", "="]), ("id", s), self.str_expr()), ("print", ("id", s))]
         if k == 21 and depth == 0 and not self.in_fn:
-            return self.recursion_stmt()
+            return self.guard_ladder_stmt() if r.chance(1, 6) else self.recursion_stmt()
         if k == 22:
             self.note("try-throw")
             e = self.fresh("e")
@@ -279,6 +279,26 @@ class CoreGen:
         if guard is not None and r.chance(2, 3):
             out.append(("def", f, [(None, p) for _, p in params], None, ("block", [("expr", ("int", -1))])))       # unguarded fallback
         self.funs[f] = (ar, "int")
+        return out
+
+    def guard_ladder_stmt(self):
+        """many overloads of one name that differ only in their guards (more than a small-array sort handles in place): the first guard, in
+        definition order, that holds decides — however many there are and whatever was defined in between"""
+        r = self.rng
+        self.note("guard-ladder")
+        self.nf += 1
+        f = "f%d" % self.nf
+        p = self.fresh("p")
+        n = r.choice([3, 9, 16, 17, 18, 21, 24, 33])
+        step = r.range(1, 4)
+        out = []
+        for i in range(n - 1, -1, -1):
+            out.append(("def", f, [(None, p)], ("bin", ">=", ("id", p), ("int", i * step)), ("block", [("expr", ("int", i * step))])))
+        if r.chance(2, 3):
+            out.append(("def", f, [(None, p)], None, ("block", [("expr", ("int", -1))])))
+        self.funs[f] = (1, "int")
+        for _ in range(r.range(3, 6)):
+            out.append(("print", ("call", ("id", f), [("int", r.range(-2, n * step + 2))])))
         return out
 
     def recursion_stmt(self):
